@@ -1,108 +1,6 @@
-//@@ include prelude/head.rs
-use std::collections::{HashMap, HashSet, VecDeque};
-use std::sync::Arc;
-use std::time::{Duration, Instant};
-//@@ include prelude/hash_keys.rs
-//@@ include prelude/time.rs
-//@@ include prelude/slice.rs
-//@@ include prelude/cmp.rs
-//@@ include prelude/strnum.rs
-//@@ include prelude/skiplist_stub.rs
+//@@ include contracts/inc_shard_header.rs
+//@@ include contracts/inc_value_units.rs
 verus! {
-broadcast use {group_byte_keys, group_time, group_slice, group_strnum, vstd::std_specs::hash::group_hash_axioms};
-//@@ item src/error.rs FerrousError
-//@@ item src/error.rs CommandError
-//@@ item src/error.rs StorageError
-//@@ item src/error.rs ScriptError
-//@@ item src/error.rs "<FerrousError as From>" #1
-//@@ item src/error.rs "<FerrousError as From>" #2
-//@@ item src/storage/value.rs Value
-//@@ item src/storage/value.rs StringEncoding
-//@@ item src/storage/value.rs ValueMetadata
-//@@ item src/storage/value.rs StoredValue
-//@@ item src/storage/engine.rs DatabaseShard
-//@@ item src/storage/engine.rs GetResult
-}
-//@@ include prelude/shard_types.rs
-//@@ include spec/shard.rs
-verus! {
-
-// ======================= value.rs: metadata and expiry predicates (real code) =========================
-impl ValueMetadata {
-//@@ unit vm_new fn src/storage/value.rs ValueMetadata::new
-    fn new() -> (r: Self)
-        ensures r.expires_at is None,
-//@@ body
-//@@ end
-
-//@@ unit vm_with_expiration fn src/storage/value.rs ValueMetadata::with_expiration
-//@@   rewrite R7 "now + expires_in" verif_instant_add
-    fn with_expiration(expires_in: Duration) -> (r: Self)
-        requires spec_now() + dur_nanos(expires_in) <= instant_max(),
-        ensures r.expires_at matches Some(d) && iv(d) == spec_now() + dur_nanos(expires_in),
-//@@ body
-//@@ end
-
-//@@ unit vm_is_expired fn src/storage/value.rs ValueMetadata::is_expired
-//@@   rewrite R7 "Instant::now() > expires_at" verif_instant_gt
-//@@   rewrite RC 0 "bool" "cr == (spec_now() > iv(expires_at))"
-    fn is_expired(&self) -> (r: bool)
-        ensures r == (self.expires_at matches Some(d) && spec_now() > iv(d)),
-//@@ body
-//@@ end
-
-//@@ unit vm_set_expiration fn src/storage/value.rs ValueMetadata::set_expiration
-//@@   rewrite R7 "Instant::now() + expires_in" verif_instant_add
-    fn set_expiration(&mut self, expires_in: Duration)
-        requires spec_now() + dur_nanos(expires_in) <= instant_max(),
-        ensures final(self).expires_at matches Some(d) && iv(d) == spec_now() + dur_nanos(expires_in),
-            final(self).created_at == old(self).created_at, final(self).last_accessed == old(self).last_accessed, final(self).encoding == old(self).encoding,
-//@@ body
-//@@ end
-
-//@@ unit vm_clear_expiration fn src/storage/value.rs ValueMetadata::clear_expiration
-    fn clear_expiration(&mut self)
-        ensures final(self).expires_at is None,
-            final(self).created_at == old(self).created_at, final(self).last_accessed == old(self).last_accessed, final(self).encoding == old(self).encoding,
-//@@ body
-//@@ end
-}
-
-impl Value {
-//@@ unit value_integer fn src/storage/value.rs Value::integer
-//@@   rewrite RCALL to_string n verif_i64_to_string
-    pub fn integer(n: i64) -> (r: Self)
-        ensures r == Value::String(key_of(i64_str(n))),
-//@@ body
-//@@ end
-
-//@@ unit value_as_integer fn src/storage/value.rs Value::as_integer
-    pub fn as_integer(&self) -> (r: Option<i64>)
-        ensures r == (match *self { Value::String(bytes) => spec_parse_i64(bytes@), _ => None::<i64> }),
-//@@ body
-//@@ end
-}
-
-impl StoredValue {
-//@@ unit sv_new fn src/storage/value.rs StoredValue::new
-    fn new(value: Value) -> (r: Self)
-        ensures r.value == value, r.metadata.expires_at is None,
-//@@ body
-//@@ end
-
-//@@ unit sv_with_expiration fn src/storage/value.rs StoredValue::with_expiration
-    fn with_expiration(value: Value, expires_in: Duration) -> (r: Self)
-        requires spec_now() + dur_nanos(expires_in) <= instant_max(),
-        ensures r.value == value, r.metadata.expires_at matches Some(d) && iv(d) == spec_now() + dur_nanos(expires_in),
-//@@ body
-//@@ end
-
-//@@ unit sv_is_expired fn src/storage/value.rs StoredValue::is_expired
-    fn is_expired(&self) -> (r: bool)
-        ensures r == expired(*self),
-//@@ body
-//@@ end
-}
 
 // ======================= engine.rs: key-space operations on one shard (R2) =========================
 impl StorageEngine {
